@@ -8,6 +8,14 @@ a variant that applies and is not reported means the checker lost sensitivity ->
 S = 'src/python_minifier/'
 
 MUST_FIRE = [
+    # ---- regressions of the defects D21-D26 (each fix undone)
+    ('C05', 'object bases removed although the module binds the name object (D27)', S + 'transforms/remove_object_base.py', "        if self.binds_object(node):", "        if False:", 'C05.OBJ'),
+    ('C03', 'global / nonlocal statement rewritten by value again (D21)', S + 'rename/binding.py', "                names = list(node.names)\n                if self._name in names:\n                    names[names.index(self._name)] = new_name\n                node.names = names\n", "                node.names = [new_name if n == self._name else n for n in node.names]\n", 'C03.E2E'),
+    ('C03', 'a global statement binds the name again (D22)', S + 'rename/bind_names.py', "        # It is resolved later, to the module binding if one exists, or as a builtin / unbound name otherwise\n        pass\n", "        for name in node.names:\n            self.get_binding(name, node.namespace).add_reference(node)\n", 'C03.E2E'),
+    ('C03', 'parenthesised annotated name without value bound as a local again (D23)', S + 'rename/bind_names.py', "        if node.value is None and not node.simple and isinstance(node.target, ast.Name):", "        if False:", 'C03.E2E'),
+    ('C03', 'class body store no longer pins the global of that name (D24)', S + 'rename/resolve_names.py', "            get_binding(node.id, get_global_namespace(node)).disallow_rename()\n", "", 'C03.E2E'),
+    ('C06', 'annotated / augmented __slots__ hoisted again (D25)', S + 'rename/rename_literals.py', "            if isinstance(node.target, ast.Name) and node.target.id == '__slots__':", "            if False:", 'C06.VAL'),
+    ('C05', 'positional-only marker removed next to **kwargs again (D26)', S + 'transforms/remove_posargs.py', "hasattr(node, 'posonlyargs') and node.kwarg is None:", "hasattr(node, 'posonlyargs'):", 'C05.POS'),
     # ---- C01
     ('C01', 'default of remove_asserts flipped', S + '__init__.py', '    remove_asserts=False,\n', '    remove_asserts=True,\n', 'C01.DEF'),
     ('C01', 'default of combine_imports flipped', S + '__init__.py', '    combine_imports=True,\n', '    combine_imports=False,\n', 'C01.DEF'),
